@@ -67,6 +67,7 @@ class Build:
         self.discharged = 0
         self.cone = []
         self.forbidden = []
+        self.prop_files = []
 
 
 def coq_files():
@@ -142,14 +143,21 @@ def build(prop_id, want_proof=True):
                 b.driver_ok = True
         else:
             b.driver_msg = out[-2000:]
-        # (3) proof cone
+        # (3) proof cone: props/<ID>.v and any companion files props/<ID><suffix>.v (e.g. C09ipm.v)
         if want_proof:
-            prop_v = 'theories/props/%s.v' % prop_id
-            if not os.path.exists(os.path.join(COQ, prop_v)):
-                b.proof_msg = 'no property file ' + prop_v
+            pdir = os.path.join(COQ, 'theories', 'props')
+            listed = set(coq_files())
+            prop_vs = sorted('theories/props/' + f for f in os.listdir(pdir)
+                             if re.fullmatch(re.escape(prop_id) + r'([a-z][A-Za-z0-9_]*)?\.v', f) and 'theories/props/' + f in listed)
+            if 'theories/props/%s.v' % prop_id not in prop_vs:
+                b.proof_msg = 'no property file theories/props/%s.v in the project' % prop_id
             else:
-                b.cone = cone_of(prop_v)
-                rc, out = sh(['make', '-j%d' % NPROC, prop_v + 'o'], cwd=COQ, timeout=1500)
+                b.prop_files = prop_vs
+                cone = set()
+                for pv in prop_vs:
+                    cone.update(cone_of(pv))
+                b.cone = sorted(cone)
+                rc, out = sh(['make', '-j%d' % NPROC] + [pv + 'o' for pv in prop_vs], cwd=COQ, timeout=1500)
                 texts = {}
                 for f in b.cone:
                     try:
@@ -165,24 +173,29 @@ def build(prop_id, want_proof=True):
                 names = [(f, m.group(2)) for f, t in texts.items() for m in STATEMENT.finditer(t)]
                 b.obligations = len(names)
                 if rc == 0 and not b.forbidden and b.gen_ok:
-                    # re-check the property file itself and read its Print Assumptions output
-                    tmp = tempfile.mkdtemp(prefix='cuv-')
-                    try:
-                        rc3, out3 = sh(['coqc', '-Q', 'theories', 'CU', '-o', os.path.join(tmp, prop_id + '.vo'), prop_v],
-                                       cwd=COQ, timeout=900)
-                    finally:
-                        shutil.rmtree(tmp, ignore_errors=True)
-                    if rc3 == 0:
-                        b.assumptions = parse_assumptions(out3)
-                        bad = [a for a in b.assumptions if not a['closed'] and not all(allowed_axiom(x) for x in a['axioms'])]
-                        if bad:
-                            b.proof_msg = 'unexpected axioms: ' + json.dumps(bad)
+                    ok_all = True
+                    for pv in prop_vs:
+                        # re-check the property file itself and read its Print Assumptions output
+                        tmp = tempfile.mkdtemp(prefix='cuv-')
+                        try:
+                            rc3, out3 = sh(['coqc', '-Q', 'theories', 'CU', '-o', os.path.join(tmp, os.path.basename(pv) + 'o'), pv],
+                                           cwd=COQ, timeout=900)
+                        finally:
+                            shutil.rmtree(tmp, ignore_errors=True)
+                        if rc3 == 0:
+                            b.assumptions += parse_assumptions(out3)
                         else:
-                            b.proof_ok = True
-                            b.discharged = b.obligations
-                    else:
-                        b.proof_msg = out3[-3000:]
-                        b.failed_file = prop_v
+                            ok_all = False
+                            b.proof_msg = out3[-3000:]
+                            b.failed_file = pv
+                    bad = [a for a in b.assumptions if not a['closed'] and not all(allowed_axiom(x) for x in a['axioms'])]
+                    if bad:
+                        b.proof_msg = 'unexpected axioms: ' + json.dumps(bad)
+                    elif ok_all and b.assumptions:
+                        b.proof_ok = True
+                        b.discharged = b.obligations
+                    elif ok_all:
+                        b.proof_msg = 'no Print Assumptions output in the property files'
                 else:
                     b.proof_msg = (b.gen_msg + '\n' + '\n'.join(b.forbidden) + '\n' + out[-3000:]).strip()
                     m = re.search(r'File "\./([^"]+)", line (\d+)', out)
@@ -379,7 +392,7 @@ def evaluate(prop, cases):
 
 
 def write_replay(prop_id, payload):
-    d = os.path.join(VERIF, 'replays')
+    d = os.environ.get('VERIF_REPLAY_DIR') or os.path.join(VERIF, 'replays')
     os.makedirs(d, exist_ok=True)
     h = hashlib.sha1(json.dumps(payload, sort_keys=True, default=str).encode()).hexdigest()[:12]
     path = os.path.join(d, '%s-%s.json' % (prop_id, h))
@@ -423,9 +436,10 @@ def trusted_base(b):
     ]
 
 
-def coqchk(prop_id):
-    """independent re-check of the compiled property file and everything it depends on; returns the context summary"""
-    rc, out = sh(['coqchk', '-o', '-silent', '-Q', 'theories', 'CU', 'CU.props.' + prop_id], cwd=COQ, timeout=2400)
+def coqchk(prop_files):
+    """independent re-check of the compiled property files and everything they depend on; returns the context summary"""
+    mods = ['CU.props.' + os.path.basename(f)[:-2] for f in prop_files]
+    rc, out = sh(['coqchk', '-o', '-silent', '-Q', 'theories', 'CU'] + mods, cwd=COQ, timeout=2400)
     summary = out[out.find('CONTEXT SUMMARY'):] if 'CONTEXT SUMMARY' in out else out[-1500:]
     items = {}
     for m in re.finditer(r'^\* ([^:\n]+):\s*(.*?)(?=^\* |\Z)', summary, flags=re.S | re.M):
@@ -439,7 +453,7 @@ def run_check(prop_id, tier, seed):
     b = build(prop_id)
     chk = None
     if tier == 'thorough' and b.proof_ok:
-        ok, items = coqchk(prop_id)
+        ok, items = coqchk(b.prop_files)
         chk = {'ok': ok, 'summary': items}
         if not ok or items.get('Axioms', '<none>') != '<none>' and not all(allowed_axiom(a.split()[0]) for a in items.get('Axioms', '').split(',') if a.strip()):
             b.proof_ok = False
@@ -516,8 +530,9 @@ def run_check(prop_id, tier, seed):
         'assumptions': getattr(prop, 'ASSUMPTIONS', []),
         'wall_s': round(wall, 2), 'violations': violations,
     }
-    os.makedirs(os.path.join(VERIF, 'evidence'), exist_ok=True)
-    with open(os.path.join(VERIF, 'evidence', prop_id + '.json'), 'w') as f:
+    evdir = os.environ.get('VERIF_EVIDENCE_DIR') or os.path.join(VERIF, 'evidence')   # (override only for mutation experiments)
+    os.makedirs(evdir, exist_ok=True)
+    with open(os.path.join(evdir, prop_id + '.json'), 'w') as f:
         json.dump(ev, f, indent=1, default=str)
     for l in lines:
         print(l)
